@@ -21,6 +21,7 @@ inductive Cmd
   -- CommandAuth; `ok` = the backend did not raise a `ResponseError`
   | selectCmd (name : Nat) (examine : Bool) (backend : Option Bool)   -- `none` missing, `some ro` backend read-only flag
   | mailboxCmd (ok : Bool)               -- CREATE DELETE RENAME STATUS SUBSCRIBE UNSUBSCRIBE LIST LSUB APPEND
+  | inboxGuard                           -- CREATE/DELETE INBOX, RENAME … INBOX: answered NO by the state machine itself
   -- CommandSelect
   | check | close
   | msgCmd (writes : Bool) (ok : Bool)   -- FETCH SEARCH (writes=false) / STORE EXPUNGE COPY MOVE (writes=true)
@@ -32,7 +33,7 @@ deriving Repr, DecidableEq
 def Cmd.cls : Cmd → Cls
   | .capability | .noop | .logout | .id | .invalid => .any
   | .starttls | .login _ | .authenticate _ _ _ => .nonauth
-  | .selectCmd _ _ _ | .mailboxCmd _ => .auth
+  | .selectCmd _ _ _ | .mailboxCmd _ | .inboxGuard => .auth
   | .check | .close | .msgCmd _ _ | .idle _ => .select
 
 structure St where
@@ -80,6 +81,7 @@ def handle (s : St) : Cmd → St × Resp
     | none => ({ s with selected := none }, .no)          -- `_selected = None` first, then MailboxNotFound
     | some ro => ({ s with selected := some (name, examine || ro) }, .ok)
   | .mailboxCmd ok => (s, if ok then .ok else .no)
+  | .inboxGuard => (s, .no)
   | .check => (s, .ok)
   | .close => ({ s with selected := none }, .ok)
   | .msgCmd writes ok =>
@@ -92,8 +94,23 @@ def handle (s : St) : Cmd → St × Resp
 /-- gate + handler: the tagged result before the bad-command bookkeeping -/
 def core (s : St) (c : Cmd) : St × Resp := if gate s c then handle s c else (s, .bad)
 
+/-- the response comes from one of the exception handlers of `_run_state` (`ResponseError`: backend refusals,
+LOGOUT's `CloseConnection`; `AuthenticationError`: a broken SASL exchange) rather than from the handler's return
+value: such responses neither count as a bad command nor reset the counter -/
+def viaException (s : St) (c : Cmd) : Bool :=
+  gate s c && match c with
+  | .logout => true
+  | .starttls => !s.tlsAvail
+  | .login who => s.loginOff || who.isNone
+  | .authenticate offered exch who => offered && (!exch || who.isNone)
+  | .selectCmd _ _ be => be.isNone
+  | .mailboxCmd ok => !ok
+  | .msgCmd writes ok => (match s.selected with | some (_, true) => writes || !ok | _ => !ok)
+  | _ => false
+
 /-- the consecutive-BAD counter of `_run_state` (limit reached: BYE and close) -/
-def count (r : St × Resp) : St × Resp :=
+def count (raised : Bool) (r : St × Resp) : St × Resp :=
+  if raised then r else
   match r.2 with
   | .bad =>
     if r.1.bad + 1 ≥ badLimit then ({ r.1 with bad := r.1.bad + 1, closed := true }, .badBye)
@@ -102,7 +119,7 @@ def count (r : St × Resp) : St × Resp :=
 
 /-- one iteration of the `_run_state` loop -/
 def step (s : St) (c : Cmd) : St × Resp :=
-  if s.closed then (s, .bad) else count (core s c)
+  if s.closed then (s, .bad) else count (viaException s c) (core s c)
 
 def St.init (loginOff tlsAvail : Bool) : St := ⟨none, none, loginOff, tlsAvail, 0, false⟩
 
